@@ -54,6 +54,7 @@ def render(name, st):
         s += " + PXI_CONST"
     s += "\n\ndef g(int a, int b):\n    return a // b\n"
     s += "\ndef h(list l, int i):\n    \"\"\"doc\"\"\"\n    return l[i]\n"
+    s += "\ncdef int cf(int x):\n    return x - 1\n\ndef k(x):\n    return cf(x)\n"      # exception spec depends on legacy_implicit_noexcept
     if st.get("public"):
         s += "\ncdef public int pubf%d(int x):\n    return x + %d\n" % (abs(v) % 3, v)
     return s
@@ -125,6 +126,12 @@ OPTION_POOL = [
     ("option", "generate_pxi", True),
     ("option", "fast_fail", True),
     ("option", "warning_errors", True),
+    ("option", "annotate", True),
+    ("option", "gdb_debug", True),
+    ("option", "legacy_implicit_noexcept", True),
+    ("directive", "profile", True),
+    ("directive", "overflowcheck", True),
+    ("directive", "c_string_type", "str"),
 ]
 
 
